@@ -35,12 +35,14 @@ Theorem C03_legacy_mask_routing_refuted :
     site_bad legacy perm bad = Ok bad' /\ nth s bad' false <> nth (nth s perm 0) bad false.
 Proof. exact legacy_mask_routing_refuted. Qed.
 
-(* Results in register order.  When results are selected by base tag: for every permutation, every
-   atom order and every set of stored results (any tags, any suffixes, any number of evaluation
-   times) whose per-atom values have one slot per atom: if the simulation stored at slot s the value
+(* Results in register order.  When stored results are selected by the tag-string rule of
+   _tags_with_base (tag == base or tag starts with base + "_"): for every permutation, every atom order
+   and every set of stored results of an accepted (whitelisted) configuration -- ANY tag_suffix string:
+   empty, "-", "=", ".", blanks, "_", unicode bytes, names of other tags, any length; any number of
+   evaluation times -- whose per-atom values have one slot per atom: if the simulation stored at slot s the value
    of atom perm[s], permute_results returns exactly the register-order results and atom order. *)
 Theorem C03_results_in_register_order : forall v n perm ao es, v_tags v = true -> is_perm n perm ->
-  length ao = n -> Forall (sized_entry n) es ->
+  length ao = n -> Forall (sized_entry n) es -> config_keeps_reordering (map e_base es) = true ->
   exists r', to_internal perm (ao, es) = Ok r' /\ permute_results v perm true r' = Ok (ao, es).
 Proof. exact results_roundtrip. Qed.
 
@@ -55,6 +57,7 @@ Proof. exact legacy_suffixed_tag_refuted. Qed.
 (* Every exit that hands results to the user (run and resume) un-permutes them exactly once. *)
 Theorem C03_every_exit_unpermutes : forall v n perm ao es x, v_tags v = true -> v_resume v = true ->
   is_perm n perm -> length ao = n -> Forall (sized_entry n) es ->
+  config_keeps_reordering (map e_base es) = true ->
   exists r', to_internal perm (ao, es) = Ok r' /\ exit_results v x perm true r' = Ok (ao, es).
 Proof. exact every_exit_unpermutes. Qed.
 
@@ -70,6 +73,15 @@ Proof. exact legacy_resume_refuted. Qed.
 Theorem C03_allowed_tags_covered : forall b, mem b allowed_permutable = true ->
   mem b per_atom_tags = true \/ mem b invariant_tags = true.
 Proof. exact allowed_tags_covered. Qed.
+
+(* The whitelist premise is needed: the rule looks at the tag string only, so a result of a
+   non-whitelisted observable tagged "occupation_probe" would be re-ordered though never permuted.
+   (The code is safe because check_permutable_observables switches reordering off for it.) *)
+Theorem C03_prefix_rule_needs_whitelist :
+  exists perm r r', is_perm 2 perm /\ length (fst r) = 2 /\ Forall (sized_entry 2) (snd r) /\
+    config_keeps_reordering (map e_base (snd r)) = false /\
+    to_internal perm r = Ok r' /\ permute_results fixed perm true r' <> Ok r.
+Proof. exact prefix_rule_needs_whitelist. Qed.
 
 (* premises are satisfiable *)
 Example C03_premises_satisfiable :
